@@ -3,7 +3,8 @@
 //@ kind W
 //@ def quick NCH=4 NALPHA=3
 //@ def thorough NCH=6 NALPHA=3
-//@ cbmc all --unwind 8 --unwinding-assertions
+//@ cbmc quick --unwind 6 --unwinding-assertions
+//@ cbmc thorough --unwind 8 --unwinding-assertions
 //@ entry h_cm_simple_idx
 //@ note W: same domain as cm_simple; checks that on failure *indexFailingChild is the index of the FIRST child that cannot be part of any match (= length of the longest viable prefix; == childCount when children are missing), which is the child the scanners name in ElementNotValidForContent (IGXMLScanner::scanEndTag: fChildren[failure]->getRawName())
 //@ note NOT in scope: see cm_simple
